@@ -20,7 +20,7 @@ from qiskit_addon_cutting.qpd import QPDBasis, TwoQubitQPDGate, SingleQubitQPDGa
 from qiskit_addon_cutting.qpd.instructions import QPDMeasure
 from qiskit_addon_cutting.qpd.decompose import decompose_qpd_instructions
 
-from common import CaseWriter, Res, Raw, Opt, call_canon, coq
+from common import CaseWriter, Res, Raw, Zc, call_canon, coq
 from circ import CircCtx, coq_circ, coq_benv
 
 IMPORTS = "From CKT Require Import Common.Base Common.Circ Model.Decompose Corr.C14Corr."
@@ -159,7 +159,7 @@ def coq_case(canon, ids, map_ids, impl):
         exp = Res("ok", (coq_circ(impl["out"]), impl["regsize"]))
     else:
         exp = Res(impl["status"])
-    maps = Raw("None") if map_ids is None else Raw(f"(Some {coq(list(map_ids))})")
+    maps = Raw("None") if map_ids is None else Raw(f"(Some {coq([Zc(m) for m in map_ids])})")
     return (coq_benv(canon["benv"]), coq_circ(canon["input"]), canon["nc"], [list(g) for g in ids], maps, exp,
             bool(impl["untouched"]))
 
@@ -325,7 +325,7 @@ def generate(rng, tier, outdir):
         phs = [i for i, it in enumerate(desc["items"]) if is_ph(it)]
         others = [i for i in range(n) if i not in phs]
         mode = ["len3", "empty_group", "non_placeholder", "diff_bases", "count_less", "count_more", "maps_len",
-                "map_range", "index_range", "qpd2_in_pair", "repeated_index"][int(rng.integers(0, 11))]
+                "map_range", "map_negative", "index_range", "qpd2_in_pair", "repeated_index"][int(rng.integers(0, 12))]
         ids = [list(g) for g in ids]
         if mode == "len3":
             if len(phs) < 3:
@@ -388,6 +388,9 @@ def generate(rng, tier, outdir):
         elif mode == "map_range":
             k = int(rng.integers(0, len(ids)))
             map_ids[k] = nmaps[k] + int(rng.integers(0, 3))
+        elif mode == "map_negative":
+            k = int(rng.integers(0, len(ids)))
+            map_ids[k] = -int(rng.integers(1, nmaps[k] + 2))   # -1 .. -(len(maps)+1): Python indexing would accept most of these
         elif mode == "index_range":
             k = int(rng.integers(0, len(ids)))
             ids[k][int(rng.integers(0, len(ids[k])))] = n + int(rng.integers(0, 3))
@@ -414,7 +417,7 @@ def generate(rng, tier, outdir):
             del ids[b]
             del map_ids[b]
         inplace = bool(rng.integers(0, 2))
-        use_maps = map_ids if (mode in ("maps_len", "map_range") or rng.integers(0, 5)) else None
+        use_maps = map_ids if (mode in ("maps_len", "map_range", "map_negative") or rng.integers(0, 5)) else None
         emit(w, "malformed", desc, ids, use_maps, inplace, dict(mode=mode, inplace=inplace))
         made += 1
 
@@ -429,7 +432,12 @@ def generate(rng, tier, outdir):
         if not pre:
             continue
         desc["predef"] = pre
-        map_ids = [int(rng.integers(0, n)) for n in nmaps]
+        # choose a map id that differs from every pre-set basis_id of the group whenever the basis has a second map
+        map_ids = []
+        for g, n in zip(ids, nmaps):
+            taken = {ph_bid(desc["items"][p]) for p in g}
+            free = [m for m in range(n) if m not in taken] or list(range(n))
+            map_ids.append(int(free[int(rng.integers(0, len(free)))]))
         inplace = bool(rng.integers(0, 2))
         emit(w, "definition_read_before", desc, ids, map_ids, inplace, dict(preset=pm, inplace=inplace, n_read=len(pre)))
         made += 1
@@ -440,7 +448,7 @@ def generate(rng, tier, outdir):
         "a basis, possibly through equal-but-distinct QPDBasis objects / standalone SingleQubitQPDGate); bases from "
         "QPDBasis.from_instruction(cx, cz, swap, Move, rzz(1/2), rzz(3/4)) and five hand-made bases with empty op lists; group order "
         "and id order inside pairs shuffled; basis_id preset none/all/mixed; inplace False/True. Streams: valid (random in-range "
-        "map_ids), omitted (map_ids=None), malformed (11 mutation classes), definition_read_before (Instruction._definition cache "
+        "map_ids), omitted (map_ids=None), malformed (12 mutation classes incl. negative map ids), definition_read_before (Instruction._definition cache "
         "filled before the call). distinct = distinct Coq case literal; non-trivial = successful call with >=1 placeholder, or a "
         "non-Ok outcome in the non-valid streams"
     )
@@ -562,3 +570,38 @@ def rerun(case):
     case["canon"] = canon
     case["impl"] = impl
     return case
+
+
+# --------------------------------------------------------------------------------------
+# known-finding witnesses (run.py: driver.py witness c14 --name <id>)
+# --------------------------------------------------------------------------------------
+
+def _witness_case(desc, ids, map_ids, inplace=False):
+    canon, impl, _ = execute(desc, ids, map_ids, inplace)
+    case = dict(kind="decompose", stream="witness", desc=desc, ids=ids, map_ids=map_ids, inplace=inplace, canon=canon, impl=impl)
+    return case, judge(case)
+
+
+def witness(name):
+    """fails=True iff the implementation still violates the property on the recorded witness input."""
+    if name == "F5":
+        # decompose_qpd_instructions(qc, [[i]]) on a gate whose basis_id is None -> AttributeError instead of ValueError
+        desc = dict(nq=2, nc=0, bases=[["inst", "cx", []]], items=[["g", "h", [], [0]], ["qpd2", 0, None, "cut_cx_0", [0, 1]]], predef=[])
+        case, v = _witness_case(desc, [[1]], None)
+        return dict(fails=bool(v["violates"]), detail=v["detail"], impl=case["impl"]["status"])
+    if name == "F15":
+        # Instruction.definition is cached; the basis_id setter does not invalidate it.
+        cx = ["inst", "cx", []]
+        # (a) basis_id=1 pre-set, definition read, then decomposed with map id 2: must give map 2's operations
+        d1 = dict(nq=2, nc=0, bases=[cx], items=[["qpd2", 0, 1, None, [0, 1]]], predef=[0])
+        c1, v1 = _witness_case(d1, [[0]], [2])
+        # (b) basis_id unset, definition read, then decomposed with explicit map ids: must decompose
+        d2 = dict(nq=2, nc=0, bases=[cx], items=[["qpd2", 0, None, None, [0, 1]]], predef=[0])
+        c2, v2 = _witness_case(d2, [[0]], [2])
+        # (c) a one-qubit half with a pre-set basis_id whose definition was read
+        d3 = dict(nq=1, nc=0, bases=[cx], items=[["qpd1", 0, 0, 0, None, [0]]], predef=[0])
+        c3, v3 = _witness_case(d3, [[0]], [2])
+        fails = bool(v1["violates"] or v2["violates"] or v3["violates"])
+        return dict(fails=fails, detail=" | ".join(f"({t}) {c['impl']['status']}: {v['detail']}" for t, c, v in
+                                                   (("a", c1, v1), ("b", c2, v2), ("c", c3, v3))))
+    return dict(fails=None, detail=f"unknown witness {name}")
